@@ -1,7 +1,201 @@
 import Hs.Model.Vx
+import Hs.Model.NsCache
+import Hs.Drv.C13
+/-
+  Driver glue for C14.  Requests (tokens after `C14`), `G` as in C13:
+    run <caches 0|1> G <nshards> <nthreads> {<nq> {query}*}* <nsched> {tid}*
+        query = `sup k` | `asup k` | `inh k` | `fits a b` | `refl <rec>` | `rfits <rec> base`
+        The model starts from cold caches, runs the given schedule, then lets the unfinished threads run
+        round-robin; reply `ok <answers of thread 0>;<thread 1>;..` and, when <caches> = 1, ` # <sup cache> # <inh cache>`
+        (answers of one thread joined by `/`: `n:<names>` | `b:0|1` | `!<outcome>`; a cache as `key=names` joined by `+`).
+    trace G <nshards> <nthreads> {<nq> {query}*}* <n> {tid}*
+        every schedule entry lets that thread run until it has passed its next hook point (`<cache>.miss`,
+        `<cache>.absent`, `<cache>.inserted`) or is done; reply `ok <tid>:<event>[:<hexkey>],.. | <answers> # <sup> # <inh>`
+    inv G <nsup> {key <n> names..}* <ninh> {key <n> names..}*
+        the snapshot of the REAL caches: reply `ok <nsup> <ninh>` when every entry is the value of the cache-free
+        function for its key (as a set), else `bad <sup|inh> <hexkey>`.
+-/
 namespace Hs.Drv.C14
+open Hs Hs.Vx Hs.Ns Hs.NsCache Hs.Drv.C13
+
+def pQuery : P Query := fun ts => do
+  let (cmd, ts) ← tok ts
+  if cmd = "sup" then
+    let (k, ts) ← pH ts
+    pure (.sup k, ts)
+  else if cmd = "asup" then
+    let (k, ts) ← pH ts
+    pure (.allSup k, ts)
+  else if cmd = "inh" then
+    let (k, ts) ← pH ts
+    pure (.inh k, ts)
+  else if cmd = "fits" then
+    let (a, ts) ← pH ts
+    let (b, ts) ← pH ts
+    pure (.fits a b, ts)
+  else if cmd = "refl" then
+    let (r, ts) ← pRec ts
+    pure (.reflect r, ts)
+  else if cmd = "rfits" then
+    let (r, ts) ← pRec ts
+    let (b, ts) ← pH ts
+    pure (.reflFits r b, ts)
+  else none
+
+def pQueries : P (List Query) := fun ts => do
+  let (k, ts) ← pNat ts
+  pRep pQuery k ts
+
+def pThreads : P (List (List Query)) := fun ts => do
+  let (k, ts) ← pNat ts
+  pRep pQueries k ts
+
+def pSched : P (List Nat) := fun ts => do
+  let (k, ts) ← pNat ts
+  pRep pNat k ts
+
+def showAns : Ans → String
+  | .names (.ok l) => "n:" ++ showNames l
+  | .names r => "!" ++ r.tag
+  | .bool (.ok b) => if b then "b:1" else "b:0"
+  | .bool r => "!" ++ r.tag
+
+def allFinished (s : State) : Bool := s.thr.all fun th => th.prog.isRet
+
+/-- after the schedule: round-robin over the enabled threads -/
+def finish (cfg : Cfg) : Nat → State → State
+  | 0, s => s
+  | fuel + 1, s =>
+    if allFinished s then s
+    else finish cfg fuel ((List.range s.thr.length).foldl (fun s t => step cfg s t) s)
+
+def dedupKeys : List (Name × V) → List (Name × V) → List (Name × V)
+  | [], acc => acc
+  | (k, v) :: m, acc => if acc.any (fun kv => kv.1 = k) then dedupKeys m acc else dedupKeys m (acc ++ [(k, v)])
+
+def showCache (m : List (Name × V)) : String :=
+  let entries := (dedupKeys m []).mergeSort (fun a b => nameLe a.1 b.1)
+  "+".intercalate (entries.map fun kv => H kv.1 ++ "=" ++ showNames kv.2)
+
+def threadAnswers (th : Thread) : String :=
+  match th.prog with
+  | .ret as => "/".intercalate (as.map showAns)
+  | _ => "!unfinished"
+
+def shardOf (n : Nat) (k : Name) : Nat := (k.foldl (fun a c => a * 31 + c.toNat) 7) % (n + 1)
+
+def runReq (ts : List String) : String :=
+  match pNat ts with
+  | none => "bad-request"
+  | some (withCaches, ts) =>
+  match pRows ts with
+  | none => "bad-request"
+  | some (rows, ts) =>
+  match pNat ts with
+  | none => "bad-request"
+  | some (nshards, ts) =>
+  match pThreads ts with
+  | none => "bad-request"
+  | some (qss, ts) =>
+  match pSched ts with
+  | none => "bad-request"
+  | some (sched, _) =>
+    let ns := make rows
+    let cfg : Cfg := { ns := ns, fuel := fuelFor ns.defs, shard := shardOf nshards }
+    let s := run cfg (init cfg cold qss) sched
+    let s := finish cfg 100000000 s
+    let ans := ";".intercalate (s.thr.map threadAnswers)
+    if withCaches = 1 then "ok " ++ ans ++ " # " ++ showCache s.c.sup ++ " # " ++ showCache s.c.inh
+    else "ok " ++ ans
+
+def cacheName : CacheId → String
+  | .sup => "sup"
+  | .inh => "inh"
+
+/-- let thread `t` run until it has passed its next hook point (`get` that misses, `contains_key` that says
+absent, `insert`) or has finished; returns the event -/
+def toBoundary (cfg : Cfg) (t : Nat) : Nat → State → State × String
+  | 0, s => (s, s!"{t}:fuel")
+  | fuel + 1, s =>
+    match s.thr[t]? with
+    | none => (s, s!"{t}:nothread")
+    | some th =>
+      match th.prog with
+      | .ret _ => (s, s!"{t}:done")
+      | .get c k _ =>
+        let miss := (look c k s.c).isNone
+        let s' := step cfg s t
+        if miss then (s', s!"{t}:{cacheName c}.miss:{H k}") else toBoundary cfg t fuel s'
+      | .has c k _ =>
+        let absent := (look c k s.c).isNone
+        let s' := step cfg s t
+        if absent then (s', s!"{t}:{cacheName c}.absent:{H k}") else toBoundary cfg t fuel s'
+      | .ins c k _ _ =>
+        if blocked cfg s t then (s, s!"{t}:blocked")
+        else (step cfg s t, s!"{t}:{cacheName c}.inserted:{H k}")
+      | .drop _ => toBoundary cfg t fuel (step cfg s t)
+
+def traceReq (ts : List String) : String :=
+  match pRows ts with
+  | none => "bad-request"
+  | some (rows, ts) =>
+  match pNat ts with
+  | none => "bad-request"
+  | some (nshards, ts) =>
+  match pThreads ts with
+  | none => "bad-request"
+  | some (qss, ts) =>
+  match pSched ts with
+  | none => "bad-request"
+  | some (sched, _) =>
+    let ns := make rows
+    let cfg : Cfg := { ns := ns, fuel := fuelFor ns.defs, shard := shardOf nshards }
+    let (s, evs) := sched.foldl (fun (acc : State × List String) t =>
+      let (s', e) := toBoundary cfg t 100000000 acc.1
+      (s', acc.2 ++ [e])) (init cfg cold qss, [])
+    "ok " ++ ",".intercalate evs ++ " | " ++ ";".intercalate (s.thr.map threadAnswers)
+      ++ " # " ++ showCache s.c.sup ++ " # " ++ showCache s.c.inh
+
+def pEntry : P (Name × V) := fun ts => do
+  let (k, ts) ← pH ts
+  let (v, ts) ← pNames ts
+  pure ((k, v), ts)
+
+def pEntries : P (List (Name × V)) := fun ts => do
+  let (k, ts) ← pNat ts
+  pRep pEntry k ts
+
+def sameSet (a b : List Name) : Bool := a.mergeSort nameLe = b.mergeSort nameLe
+
+def invReq (ts : List String) : String :=
+  match pRows ts with
+  | none => "bad-request"
+  | some (rows, ts) =>
+  match pEntries ts with
+  | none => "bad-request"
+  | some (sup, ts) =>
+  match pEntries ts with
+  | none => "bad-request"
+  | some (inh, _) =>
+    let ns := make rows
+    let fuel := fuelFor ns.defs
+    match sup.find? (fun kv => !sameSet kv.2 (supertypesOf ns.defs kv.1)) with
+    | some kv => "bad sup " ++ H kv.1
+    | none =>
+      match inh.find? (fun kv => match inheritance fuel ns kv.1 with
+          | .ok v => !sameSet kv.2 v
+          | _ => true) with
+      | some kv => "bad inh " ++ H kv.1
+      | none => s!"ok {sup.length} {inh.length}"
 
 /-- requests `C14 <cmd> ...` (tokens after the property id) -/
-def handle (_ts : List String) : String := "bad-request"
+def handle (ts : List String) : String :=
+  match ts with
+  | cmd :: rest =>
+    if cmd = "run" then runReq rest
+    else if cmd = "inv" then invReq rest
+    else if cmd = "trace" then traceReq rest
+    else "bad-request"
+  | [] => "bad-request"
 
 end Hs.Drv.C14
